@@ -360,6 +360,29 @@ fn resident_kb() -> u64 {
 
 /// Execute one session on a fresh thread and collect everything observable.
 pub fn run_session(capture: &Capture, session: &Session) -> Outcome {
+    // Once per process: what the HALT trap prints on this tree
+    static CALIBRATING: std::sync::atomic::AtomicBool = std::sync::atomic::AtomicBool::new(false);
+    if crate::model::vm::HALT_TEXT.get().is_none() && !CALIBRATING.swap(true, std::sync::atomic::Ordering::SeqCst) {
+        let halt_only = Session {
+            image: Image::Source("    halt\n".to_string()),
+            stack: false,
+            minimal: true,
+            debug: None,
+            stdin: Vec::new(),
+            tty_input: None,
+            fuel: 1000,
+            max_idle: u64::MAX,
+            max_commands: u64::MAX,
+            log_exec: false,
+        };
+        let outcome = run_session(capture, &halt_only);
+        let text = if outcome.end == End::Returned && outcome.execs == 1 {
+            outcome.stdout.clone()
+        } else {
+            crate::model::vm::HALT_BANNER.to_vec()
+        };
+        let _ = crate::model::vm::HALT_TEXT.set(text);
+    }
     // Leftovers of the harness itself must not be attributed to the run
     let _ = capture.take();
     *PANIC_MESSAGE.lock().unwrap() = None;
